@@ -3,7 +3,8 @@
    usage: driver <mode>
      wrk      case -> trace ## diag            (c_ovf = true: the harness is built with overflow checks)
      wrkwrap  case -> trace ## diag            (c_ovf = false: plain release arithmetic)
-     mon07    case <TAB> trace -> ok | names of the C07 predicates that are false on that trace *)
+     mon07    case <TAB> trace -> ok | names of the C07 predicates that are false on that trace
+     join     join_all history -> polls and result (Model/SrvStop.v join_poll / join_results) *)
 open Gen
 
 let rec pos_of_int n = if n = 1 then XH else if n land 1 = 1 then XI (pos_of_int (n lsr 1)) else XO (pos_of_int (n lsr 1))
@@ -144,9 +145,44 @@ let mon07 line =
     if bad = [] then "ok" else String.concat "," bad
   with Bad | Failure _ | Invalid_argument _ -> "unparsable"
 
+(* ---- join_all: "n;poll|poll|..." (see harness) against SrvStop.join_poll / join_results ---- *)
+let join line =
+  try
+    let (n, polls) = split_once ';' line in
+    let n = int_of n in
+    if n > 64 then raise Bad;
+    let acks = ref (List.init n (fun _ -> WPending)) in
+    let res = ref (List.init n (fun _ -> None)) in
+    let segs = ref [] in
+    let fin = ref false in
+    List.iter (fun p ->
+      if not !fin then begin
+        List.iter (fun kv ->
+          if kv <> "" then begin
+            let (i, v) = split_once '=' kv in
+            let i = int_of i in
+            if i >= n then raise Bad;
+            let a = match v with "t" -> WAcked true | "f" -> WAcked false | "x" -> WDropped | _ -> raise Bad in
+            acks := set_nth (nat_of_int i) a !acks
+          end) (String.split_on_char ',' p);
+        let (res', o) = join_poll O !res !acks in
+        res := res';
+        let evs = List.filter_map (function
+          | OJoinPolled (i, r) -> Some (Printf.sprintf "p%d%c" (int_of_nat i) (if r then '+' else '-'))
+          | _ -> None) o in
+        match join_results res' with
+        | Some l ->
+            fin := true;
+            let vs = String.concat "" (List.map (function Some true -> "t" | Some false -> "f" | None -> "x") l) in
+            segs := String.concat " " (evs @ ["=" ^ vs]) :: !segs
+        | None -> segs := String.concat " " (evs @ ["-"]) :: !segs
+      end) (String.split_on_char '|' polls);
+    String.concat "|" (List.rev !segs)
+  with Bad | Failure _ | Invalid_argument _ -> "BADCASE"
+
 let () =
   let f = match Sys.argv.(1) with
-    | "wrk" -> wrk true | "wrkwrap" -> wrk false | "mon07" -> mon07
+    | "wrk" -> wrk true | "wrkwrap" -> wrk false | "mon07" -> mon07 | "join" -> join
     | m -> failwith ("unknown mode " ^ m) in
   try while true do
     let line = input_line stdin in
